@@ -337,6 +337,20 @@ def run_case(i, rng, rec, tier, state):
             # containment of transformed points is unchanged
             if hasattr(x, "is_inside") and which not in ("ConvexSpheropolygon",):
                 pts = fpr.probe_points(x, 80)
+                if which in ("Polyhedron", "ConvexPolyhedron"):
+                    # plus points sharing coordinates with vertices (ties of sign-based winding code occur on the
+                    # axis-aligned side only), kept outside the boundary band by the membership oracle of C05
+                    from .c05 import MARGIN, oracle_convex, oracle_mesh
+                    from .. import points as ptsmod
+                    with contracts.quiet():
+                        Vx = np.asarray(x.vertices, float)
+                        fx = [[int(i_) for i_ in f] for f in x.faces]
+                    extra = ptsmod.points3d(rng, Vx, geom.faces_to_tris(Vx, fx), 120, lattice=bool(b["info"].get("kind") == "voxel"))
+                    if which == "Polyhedron":
+                        _, band, bsize = oracle_mesh(Vx, fx, extra)
+                    else:
+                        _, band, bsize = oracle_convex(Vx, extra)
+                    pts = np.vstack((pts, extra[band > 1e3 * MARGIN * bsize]))
                 try:
                     a = np.asarray(x.is_inside(pts))
                     bres = np.asarray(gx.is_inside(g.pt(pts)))
